@@ -277,6 +277,7 @@ def run_check(prop: str, tier: str, seed: int, replay: Optional[dict], *, profil
         # the theorems about generated variables (flatten / nested sub-queries): Props/<dep_prop>.v, built and its
         # Print Assumptions collected like the main property file; kept apart so that the evaluator model of the ordinary
         # cases stays available when these proofs break
+        pins.oblige(rep, str(core.REPO), "eqldep", "the generated-variable model (Eql/EvalDep.v: Flatten, ResultQuantifier over Entity as operand)")
         ok_dep, log = core.coq_make([f"Props/{dep_prop}.vo"])
         rep.oblige(f"build:Props/{dep_prop}.vo", ok_dep, "" if ok_dep else core.first_error(log))
         if ok_dep:
